@@ -558,11 +558,14 @@ pub fn run_random<D: Driver>(opts: &RunOpts) -> Outcome {
                 break;
             }
             let fp = d.fp();
-            let ev = if pi < prefix.len() && en.contains(&prefix[pi]) {
+            // scenario prefix: events that are not enabled here (e.g. slots beyond k) are skipped
+            while pi < prefix.len() && !en.contains(&prefix[pi]) {
+                pi += 1;
+            }
+            let ev = if pi < prefix.len() {
                 pi += 1;
                 prefix[pi - 1]
             } else {
-                pi = prefix.len();
                 pick_event(&d, &en, &mut rng, profile, &ctx.transitions, fp, novelty)
             };
             ctx.cur_fp = fp;
